@@ -20,6 +20,7 @@ func c08b2i(b bool) int {
 func VerifC08ParserFree() {
 	n := vrt.Param("n", 8)
 	data := append([]byte{0xFF, 0x4F}, vrt.Bytes("b", n)...)
+	vrt.C09Guard(data, 1)
 	_, err := NewParser(data).Parse()
 	vrt.Out("err", c08b2i(err != nil))
 }
@@ -32,6 +33,7 @@ func VerifC08ParserSIZ() {
 	data := []byte{0xFF, 0x4F, 0xFF, 0x51, byte((n + 2) >> 8), byte(n + 2)}
 	data = append(data, vrt.Bytes("siz", n)...)
 	data = append(data, vrt.Bytes("tail", vrt.Param("tail", 4))...)
+	vrt.C09Guard(data, 1)
 	_, err := NewParser(data).Parse()
 	vrt.Out("err", c08b2i(err != nil))
 }
